@@ -84,7 +84,7 @@ class Engine(ExprMixin, StmtMixin, CallMixin, PrimMixin, NumpyMixin):
             goal = z3.BoolVal(False)
         goal = to_z3(goal)
         name = "%s/%s/%s" % (self.cur_func, kind, label)
-        budget = self.timeout if self.unknown_s < 3 * self.timeout else max(1.0, self.timeout / 8)
+        budget = self.timeout if self.unknown_s < 2 * self.timeout else 1.0
         res = solve.prove(st.pc, goal, timeout_s=budget)
         if res["status"] == "unknown":
             self.unknown_s += res["ms"] / 1000.0
